@@ -238,10 +238,10 @@ def run_rest(case, out, obs):
     t0 = float(frng.choice([0.0, 120.0, 3600.0, 86400.0]))
     mode = str(frng.choice(['uniform', 'uniform', 'jitter', 'two_rate']))
     if case['seed'] % 10 == 7:
-        # a sampling clock that drifts by a few ppm over a long record: neighbouring intervals differ by < 1e-12 s, first and last by 5e-8 s
-        mode, n = 'drift', 60001
+        # a sampling clock that drifts by a few ppm over a long record: neighbouring intervals differ by 3e-13 s, first and last by 2e-8 s
+        mode, n, h, t0 = 'drift', 60001, 0.01, 0.0
         obs['rest_slow_clock_drift'] = 1
-    tt = forms.stamps(n - 1, h, frng, mode, t0=t0) if mode != 'drift' else t0 + np.r_[0.0, np.cumsum(h * (1 + 5e-6 * np.arange(n - 1) / (n - 1)))]
+    tt = forms.stamps(n - 1, h, frng, mode, t0=t0) if mode != 'drift' else np.r_[0.0, np.cumsum(h * (1 + 2e-6 * np.arange(n - 1) / (n - 1)))]
     obs['rest_stamps_not_from_zero'] = int(t0 != 0)
     obs['rest_stamps_irregular'] = int(mode != 'uniform')
     hmin = float(np.diff(tt).min())
